@@ -5,20 +5,9 @@ use smallvec::SmallVec;
 
 const NAMES: [&[u8]; 3] = [b"FCGI_MAX_CONNS", b"FCGI_MAX_REQS", b"FCGI_MPXS_CONNS"];
 
-/// Reference decimal rendering (digits most significant first); returns (buf, len).
-fn ref_decimal(mut v: usize) -> ([u8; 20], usize) {
-    let mut tmp = [0u8; 20];
-    let mut n = 0;
-    loop {
-        tmp[n] = b'0' + (v % 10) as u8;
-        n += 1;
-        v /= 10;
-        if v == 0 { break; }
-    }
-    let mut out = [0u8; 20];
-    let mut i = 0;
-    while i < n { out[i] = tmp[n - 1 - i]; i += 1; }
-    (out, n)
+/// Reference decimal rendering = the ghost digits published by `any_decimal` (no division anywhere).
+fn ref_decimal(v: usize) -> ([u8; 20], usize) {
+    unsafe { assert!(v == crate::verif_kani::G_VALUE); (crate::verif_kani::G_DIGITS, crate::verif_kani::G_NDIG) }
 }
 
 /// Checks one GetValuesResult record at `rec` against the spec for `bits`/`mc`; returns its total length.
@@ -54,11 +43,8 @@ pub(crate) fn check_values_result(rec: &[u8], bits: u8, mc: usize) -> usize {
     rec.len()
 }
 
-fn write_response_case<V: crate::ext::BytesVec>(mut out: V, pre: usize, lo: usize, hi: usize) {
-    let bits: u8 = kani::any();
-    kani::assume(bits < 8);
-    let mc: usize = kani::any();
-    kani::assume(lo <= mc && mc <= hi);
+fn write_response_case<V: crate::ext::BytesVec>(mut out: V, pre: usize, nd: usize, bits: u8) {
+    let mc = crate::verif_kani::any_decimal(nd);
     let cfg = Config { buffer_size: 8192, max_conns: NonZeroUsize::new(mc).unwrap() };
     let vars = ProtocolVariables::from_bits_truncate(bits);
     let n = vars.write_response(&mut out, &cfg);
@@ -67,10 +53,8 @@ fn write_response_case<V: crate::ext::BytesVec>(mut out: V, pre: usize, lo: usiz
     while i < pre { assert!(out[i] == 0xC0 + i as u8, "existing buffer contents modified"); i += 1; }
     let m = check_values_result(&out[pre..], bits, mc);
     assert_eq!(m, n);
-    kani::cover!(bits == 7, "all three variables");
-    kani::cover!(bits == 0, "empty set -> empty record");
-    kani::cover!(mc == hi, "upper end of the digit class");
-    kani::cover!(mc == lo, "lower end of the digit class");
+    kani::cover!(unsafe { crate::verif_kani::G_DIGITS[nd - 1] } == b'9', "last digit 9");
+    kani::cover!(unsafe { crate::verif_kani::G_DIGITS[nd - 1] } == b'0' || nd == 1, "last digit 0 (or single digit)");
 }
 
 fn prefilled_vec(pre: usize) -> Vec<u8> {
@@ -79,15 +63,221 @@ fn prefilled_vec(pre: usize) -> Vec<u8> {
     v
 }
 
-// @harness name=c17_write_response_vec_1digit props=C17,C04 tier=thorough timeout=3000 mem=20
-// @bound all 8 variable subsets x max_conns 1..=9 x pre-filled Vec of symbolic length 0..3
-// @functions ProtocolVariables::write_response<Vec<u8>>, nv::write, RecordHeader::set_lengths
-#[kani::proof]
-#[kani::unwind(22)]
-#[kani::stub(compact_str::repr::ensure_read, crate::verif_kani::ensure_read_id)]
-fn c17_write_response_vec_1digit() {
-    let pre: usize = kani::any();
-    kani::assume(pre <= 3);
-    let v = prefilled_vec(pre);
-    write_response_case(v, pre, 1, 9);
+macro_rules! wr_harness {
+    ($name:ident, $bits:expr, $d:expr, $pre:expr, $mk:expr) => {
+        #[kani::proof]
+        #[kani::unwind(24)]
+        #[kani::stub(compact_str::repr::ensure_read, crate::verif_kani::ensure_read_id)]
+        #[kani::stub(compact_str::ToCompactString::to_compact_string, crate::verif_kani::TcsModel::tcs_model)]
+        fn $name() {
+            write_response_case($mk, $pre, $d, $bits);
+        }
+    };
 }
+
+fn prefilled_small(pre: usize) -> SmallVec<[u8; 104]> {
+    let mut v: SmallVec<[u8; 104]> = SmallVec::new();
+    let mut i = 0; while i < pre { v.push(0xC0 + i as u8); i += 1; }
+    v
+}
+
+// @harness name=c17_wr_vec_b7_d1 props=C17,C04 tier=quick timeout=1500
+// @bound variable subset 111 (bits 7) x every max_conns with 1 decimal digits x Vec<u8> pre-filled with 3 bytes; to_compact_string = E5b model
+// @functions ProtocolVariables::write_response<Vec<u8>>, nv::write, RecordHeader::set_lengths, RecordHeader::padding_bytes
+wr_harness!(c17_wr_vec_b7_d1, 7, 1, 3, prefilled_vec(3));
+// @harness name=c17_wr_vec_b7_d20 props=C17,C04 tier=quick timeout=1500
+// @bound variable subset 111 (bits 7) x every max_conns with 20 decimal digits x Vec<u8> pre-filled with 0 bytes; to_compact_string = E5b model
+// @functions ProtocolVariables::write_response<Vec<u8>>, nv::write, RecordHeader::set_lengths, RecordHeader::padding_bytes
+wr_harness!(c17_wr_vec_b7_d20, 7, 20, 0, prefilled_vec(0));
+// @harness name=c17_wr_vec_b5_d2 props=C17,C04 tier=quick timeout=1500
+// @bound variable subset 101 (bits 5) x every max_conns with 2 decimal digits x Vec<u8> pre-filled with 0 bytes; to_compact_string = E5b model
+// @functions ProtocolVariables::write_response<Vec<u8>>, nv::write, RecordHeader::set_lengths, RecordHeader::padding_bytes
+wr_harness!(c17_wr_vec_b5_d2, 5, 2, 0, prefilled_vec(0));
+// @harness name=c17_wr_vec_b0_d1 props=C17,C04 tier=quick timeout=1500
+// @bound variable subset 000 (bits 0) x every max_conns with 1 decimal digits x Vec<u8> pre-filled with 1 bytes; to_compact_string = E5b model
+// @functions ProtocolVariables::write_response<Vec<u8>>, nv::write, RecordHeader::set_lengths, RecordHeader::padding_bytes
+wr_harness!(c17_wr_vec_b0_d1, 0, 1, 1, prefilled_vec(1));
+// @harness name=c17_wr_small_b2_d1 props=C17,C04 tier=quick timeout=1500
+// @bound variable subset 010 (bits 2) x every max_conns with 1 decimal digits x SmallVec<[u8;104]> pre-filled with 2 bytes; to_compact_string = E5b model
+// @functions ProtocolVariables::write_response<SmallVec<[u8;104]>>, nv::write, RecordHeader::set_lengths, RecordHeader::padding_bytes
+wr_harness!(c17_wr_small_b2_d1, 2, 1, 2, prefilled_small(2));
+// @harness name=c17_wr_small_b7_d20 props=C17,C04 tier=quick timeout=1500
+// @bound variable subset 111 (bits 7) x every max_conns with 20 decimal digits x SmallVec<[u8;104]> pre-filled with 0 bytes; to_compact_string = E5b model
+// @functions ProtocolVariables::write_response<SmallVec<[u8;104]>>, nv::write, RecordHeader::set_lengths, RecordHeader::padding_bytes
+wr_harness!(c17_wr_small_b7_d20, 7, 20, 0, prefilled_small(0));
+// @harness name=c17_wr_vec_b0_d2 props=C17,C04 tier=thorough timeout=1500
+// @bound variable subset 000 (bits 0) x every max_conns with 2 decimal digits x Vec<u8> pre-filled with 0 bytes; to_compact_string = E5b model
+// @functions ProtocolVariables::write_response<Vec<u8>>, nv::write, RecordHeader::set_lengths, RecordHeader::padding_bytes
+wr_harness!(c17_wr_vec_b0_d2, 0, 2, 0, prefilled_vec(0));
+// @harness name=c17_wr_vec_b0_d3 props=C17,C04 tier=thorough timeout=1500
+// @bound variable subset 000 (bits 0) x every max_conns with 3 decimal digits x Vec<u8> pre-filled with 0 bytes; to_compact_string = E5b model
+// @functions ProtocolVariables::write_response<Vec<u8>>, nv::write, RecordHeader::set_lengths, RecordHeader::padding_bytes
+wr_harness!(c17_wr_vec_b0_d3, 0, 3, 0, prefilled_vec(0));
+// @harness name=c17_wr_vec_b0_d10 props=C17,C04 tier=thorough timeout=1500
+// @bound variable subset 000 (bits 0) x every max_conns with 10 decimal digits x Vec<u8> pre-filled with 0 bytes; to_compact_string = E5b model
+// @functions ProtocolVariables::write_response<Vec<u8>>, nv::write, RecordHeader::set_lengths, RecordHeader::padding_bytes
+wr_harness!(c17_wr_vec_b0_d10, 0, 10, 0, prefilled_vec(0));
+// @harness name=c17_wr_vec_b0_d19 props=C17,C04 tier=thorough timeout=1500
+// @bound variable subset 000 (bits 0) x every max_conns with 19 decimal digits x Vec<u8> pre-filled with 0 bytes; to_compact_string = E5b model
+// @functions ProtocolVariables::write_response<Vec<u8>>, nv::write, RecordHeader::set_lengths, RecordHeader::padding_bytes
+wr_harness!(c17_wr_vec_b0_d19, 0, 19, 0, prefilled_vec(0));
+// @harness name=c17_wr_vec_b0_d20 props=C17,C04 tier=thorough timeout=1500
+// @bound variable subset 000 (bits 0) x every max_conns with 20 decimal digits x Vec<u8> pre-filled with 0 bytes; to_compact_string = E5b model
+// @functions ProtocolVariables::write_response<Vec<u8>>, nv::write, RecordHeader::set_lengths, RecordHeader::padding_bytes
+wr_harness!(c17_wr_vec_b0_d20, 0, 20, 0, prefilled_vec(0));
+// @harness name=c17_wr_vec_b1_d1 props=C17,C04 tier=thorough timeout=1500
+// @bound variable subset 001 (bits 1) x every max_conns with 1 decimal digits x Vec<u8> pre-filled with 0 bytes; to_compact_string = E5b model
+// @functions ProtocolVariables::write_response<Vec<u8>>, nv::write, RecordHeader::set_lengths, RecordHeader::padding_bytes
+wr_harness!(c17_wr_vec_b1_d1, 1, 1, 0, prefilled_vec(0));
+// @harness name=c17_wr_vec_b1_d2 props=C17,C04 tier=thorough timeout=1500
+// @bound variable subset 001 (bits 1) x every max_conns with 2 decimal digits x Vec<u8> pre-filled with 0 bytes; to_compact_string = E5b model
+// @functions ProtocolVariables::write_response<Vec<u8>>, nv::write, RecordHeader::set_lengths, RecordHeader::padding_bytes
+wr_harness!(c17_wr_vec_b1_d2, 1, 2, 0, prefilled_vec(0));
+// @harness name=c17_wr_vec_b1_d3 props=C17,C04 tier=thorough timeout=1500
+// @bound variable subset 001 (bits 1) x every max_conns with 3 decimal digits x Vec<u8> pre-filled with 0 bytes; to_compact_string = E5b model
+// @functions ProtocolVariables::write_response<Vec<u8>>, nv::write, RecordHeader::set_lengths, RecordHeader::padding_bytes
+wr_harness!(c17_wr_vec_b1_d3, 1, 3, 0, prefilled_vec(0));
+// @harness name=c17_wr_vec_b1_d10 props=C17,C04 tier=thorough timeout=1500
+// @bound variable subset 001 (bits 1) x every max_conns with 10 decimal digits x Vec<u8> pre-filled with 0 bytes; to_compact_string = E5b model
+// @functions ProtocolVariables::write_response<Vec<u8>>, nv::write, RecordHeader::set_lengths, RecordHeader::padding_bytes
+wr_harness!(c17_wr_vec_b1_d10, 1, 10, 0, prefilled_vec(0));
+// @harness name=c17_wr_vec_b1_d19 props=C17,C04 tier=thorough timeout=1500
+// @bound variable subset 001 (bits 1) x every max_conns with 19 decimal digits x Vec<u8> pre-filled with 0 bytes; to_compact_string = E5b model
+// @functions ProtocolVariables::write_response<Vec<u8>>, nv::write, RecordHeader::set_lengths, RecordHeader::padding_bytes
+wr_harness!(c17_wr_vec_b1_d19, 1, 19, 0, prefilled_vec(0));
+// @harness name=c17_wr_vec_b1_d20 props=C17,C04 tier=thorough timeout=1500
+// @bound variable subset 001 (bits 1) x every max_conns with 20 decimal digits x Vec<u8> pre-filled with 0 bytes; to_compact_string = E5b model
+// @functions ProtocolVariables::write_response<Vec<u8>>, nv::write, RecordHeader::set_lengths, RecordHeader::padding_bytes
+wr_harness!(c17_wr_vec_b1_d20, 1, 20, 0, prefilled_vec(0));
+// @harness name=c17_wr_vec_b2_d1 props=C17,C04 tier=thorough timeout=1500
+// @bound variable subset 010 (bits 2) x every max_conns with 1 decimal digits x Vec<u8> pre-filled with 0 bytes; to_compact_string = E5b model
+// @functions ProtocolVariables::write_response<Vec<u8>>, nv::write, RecordHeader::set_lengths, RecordHeader::padding_bytes
+wr_harness!(c17_wr_vec_b2_d1, 2, 1, 0, prefilled_vec(0));
+// @harness name=c17_wr_vec_b2_d2 props=C17,C04 tier=thorough timeout=1500
+// @bound variable subset 010 (bits 2) x every max_conns with 2 decimal digits x Vec<u8> pre-filled with 0 bytes; to_compact_string = E5b model
+// @functions ProtocolVariables::write_response<Vec<u8>>, nv::write, RecordHeader::set_lengths, RecordHeader::padding_bytes
+wr_harness!(c17_wr_vec_b2_d2, 2, 2, 0, prefilled_vec(0));
+// @harness name=c17_wr_vec_b2_d3 props=C17,C04 tier=thorough timeout=1500
+// @bound variable subset 010 (bits 2) x every max_conns with 3 decimal digits x Vec<u8> pre-filled with 0 bytes; to_compact_string = E5b model
+// @functions ProtocolVariables::write_response<Vec<u8>>, nv::write, RecordHeader::set_lengths, RecordHeader::padding_bytes
+wr_harness!(c17_wr_vec_b2_d3, 2, 3, 0, prefilled_vec(0));
+// @harness name=c17_wr_vec_b2_d10 props=C17,C04 tier=thorough timeout=1500
+// @bound variable subset 010 (bits 2) x every max_conns with 10 decimal digits x Vec<u8> pre-filled with 0 bytes; to_compact_string = E5b model
+// @functions ProtocolVariables::write_response<Vec<u8>>, nv::write, RecordHeader::set_lengths, RecordHeader::padding_bytes
+wr_harness!(c17_wr_vec_b2_d10, 2, 10, 0, prefilled_vec(0));
+// @harness name=c17_wr_vec_b2_d19 props=C17,C04 tier=thorough timeout=1500
+// @bound variable subset 010 (bits 2) x every max_conns with 19 decimal digits x Vec<u8> pre-filled with 0 bytes; to_compact_string = E5b model
+// @functions ProtocolVariables::write_response<Vec<u8>>, nv::write, RecordHeader::set_lengths, RecordHeader::padding_bytes
+wr_harness!(c17_wr_vec_b2_d19, 2, 19, 0, prefilled_vec(0));
+// @harness name=c17_wr_vec_b2_d20 props=C17,C04 tier=thorough timeout=1500
+// @bound variable subset 010 (bits 2) x every max_conns with 20 decimal digits x Vec<u8> pre-filled with 0 bytes; to_compact_string = E5b model
+// @functions ProtocolVariables::write_response<Vec<u8>>, nv::write, RecordHeader::set_lengths, RecordHeader::padding_bytes
+wr_harness!(c17_wr_vec_b2_d20, 2, 20, 0, prefilled_vec(0));
+// @harness name=c17_wr_vec_b3_d1 props=C17,C04 tier=thorough timeout=1500
+// @bound variable subset 011 (bits 3) x every max_conns with 1 decimal digits x Vec<u8> pre-filled with 0 bytes; to_compact_string = E5b model
+// @functions ProtocolVariables::write_response<Vec<u8>>, nv::write, RecordHeader::set_lengths, RecordHeader::padding_bytes
+wr_harness!(c17_wr_vec_b3_d1, 3, 1, 0, prefilled_vec(0));
+// @harness name=c17_wr_vec_b3_d2 props=C17,C04 tier=thorough timeout=1500
+// @bound variable subset 011 (bits 3) x every max_conns with 2 decimal digits x Vec<u8> pre-filled with 0 bytes; to_compact_string = E5b model
+// @functions ProtocolVariables::write_response<Vec<u8>>, nv::write, RecordHeader::set_lengths, RecordHeader::padding_bytes
+wr_harness!(c17_wr_vec_b3_d2, 3, 2, 0, prefilled_vec(0));
+// @harness name=c17_wr_vec_b3_d3 props=C17,C04 tier=thorough timeout=1500
+// @bound variable subset 011 (bits 3) x every max_conns with 3 decimal digits x Vec<u8> pre-filled with 0 bytes; to_compact_string = E5b model
+// @functions ProtocolVariables::write_response<Vec<u8>>, nv::write, RecordHeader::set_lengths, RecordHeader::padding_bytes
+wr_harness!(c17_wr_vec_b3_d3, 3, 3, 0, prefilled_vec(0));
+// @harness name=c17_wr_vec_b3_d10 props=C17,C04 tier=thorough timeout=1500
+// @bound variable subset 011 (bits 3) x every max_conns with 10 decimal digits x Vec<u8> pre-filled with 0 bytes; to_compact_string = E5b model
+// @functions ProtocolVariables::write_response<Vec<u8>>, nv::write, RecordHeader::set_lengths, RecordHeader::padding_bytes
+wr_harness!(c17_wr_vec_b3_d10, 3, 10, 0, prefilled_vec(0));
+// @harness name=c17_wr_vec_b3_d19 props=C17,C04 tier=thorough timeout=1500
+// @bound variable subset 011 (bits 3) x every max_conns with 19 decimal digits x Vec<u8> pre-filled with 0 bytes; to_compact_string = E5b model
+// @functions ProtocolVariables::write_response<Vec<u8>>, nv::write, RecordHeader::set_lengths, RecordHeader::padding_bytes
+wr_harness!(c17_wr_vec_b3_d19, 3, 19, 0, prefilled_vec(0));
+// @harness name=c17_wr_vec_b3_d20 props=C17,C04 tier=thorough timeout=1500
+// @bound variable subset 011 (bits 3) x every max_conns with 20 decimal digits x Vec<u8> pre-filled with 0 bytes; to_compact_string = E5b model
+// @functions ProtocolVariables::write_response<Vec<u8>>, nv::write, RecordHeader::set_lengths, RecordHeader::padding_bytes
+wr_harness!(c17_wr_vec_b3_d20, 3, 20, 0, prefilled_vec(0));
+// @harness name=c17_wr_vec_b4_d1 props=C17,C04 tier=thorough timeout=1500
+// @bound variable subset 100 (bits 4) x every max_conns with 1 decimal digits x Vec<u8> pre-filled with 0 bytes; to_compact_string = E5b model
+// @functions ProtocolVariables::write_response<Vec<u8>>, nv::write, RecordHeader::set_lengths, RecordHeader::padding_bytes
+wr_harness!(c17_wr_vec_b4_d1, 4, 1, 0, prefilled_vec(0));
+// @harness name=c17_wr_vec_b4_d2 props=C17,C04 tier=thorough timeout=1500
+// @bound variable subset 100 (bits 4) x every max_conns with 2 decimal digits x Vec<u8> pre-filled with 0 bytes; to_compact_string = E5b model
+// @functions ProtocolVariables::write_response<Vec<u8>>, nv::write, RecordHeader::set_lengths, RecordHeader::padding_bytes
+wr_harness!(c17_wr_vec_b4_d2, 4, 2, 0, prefilled_vec(0));
+// @harness name=c17_wr_vec_b4_d3 props=C17,C04 tier=thorough timeout=1500
+// @bound variable subset 100 (bits 4) x every max_conns with 3 decimal digits x Vec<u8> pre-filled with 0 bytes; to_compact_string = E5b model
+// @functions ProtocolVariables::write_response<Vec<u8>>, nv::write, RecordHeader::set_lengths, RecordHeader::padding_bytes
+wr_harness!(c17_wr_vec_b4_d3, 4, 3, 0, prefilled_vec(0));
+// @harness name=c17_wr_vec_b4_d10 props=C17,C04 tier=thorough timeout=1500
+// @bound variable subset 100 (bits 4) x every max_conns with 10 decimal digits x Vec<u8> pre-filled with 0 bytes; to_compact_string = E5b model
+// @functions ProtocolVariables::write_response<Vec<u8>>, nv::write, RecordHeader::set_lengths, RecordHeader::padding_bytes
+wr_harness!(c17_wr_vec_b4_d10, 4, 10, 0, prefilled_vec(0));
+// @harness name=c17_wr_vec_b4_d19 props=C17,C04 tier=thorough timeout=1500
+// @bound variable subset 100 (bits 4) x every max_conns with 19 decimal digits x Vec<u8> pre-filled with 0 bytes; to_compact_string = E5b model
+// @functions ProtocolVariables::write_response<Vec<u8>>, nv::write, RecordHeader::set_lengths, RecordHeader::padding_bytes
+wr_harness!(c17_wr_vec_b4_d19, 4, 19, 0, prefilled_vec(0));
+// @harness name=c17_wr_vec_b4_d20 props=C17,C04 tier=thorough timeout=1500
+// @bound variable subset 100 (bits 4) x every max_conns with 20 decimal digits x Vec<u8> pre-filled with 0 bytes; to_compact_string = E5b model
+// @functions ProtocolVariables::write_response<Vec<u8>>, nv::write, RecordHeader::set_lengths, RecordHeader::padding_bytes
+wr_harness!(c17_wr_vec_b4_d20, 4, 20, 0, prefilled_vec(0));
+// @harness name=c17_wr_vec_b5_d1 props=C17,C04 tier=thorough timeout=1500
+// @bound variable subset 101 (bits 5) x every max_conns with 1 decimal digits x Vec<u8> pre-filled with 0 bytes; to_compact_string = E5b model
+// @functions ProtocolVariables::write_response<Vec<u8>>, nv::write, RecordHeader::set_lengths, RecordHeader::padding_bytes
+wr_harness!(c17_wr_vec_b5_d1, 5, 1, 0, prefilled_vec(0));
+// @harness name=c17_wr_vec_b5_d3 props=C17,C04 tier=thorough timeout=1500
+// @bound variable subset 101 (bits 5) x every max_conns with 3 decimal digits x Vec<u8> pre-filled with 0 bytes; to_compact_string = E5b model
+// @functions ProtocolVariables::write_response<Vec<u8>>, nv::write, RecordHeader::set_lengths, RecordHeader::padding_bytes
+wr_harness!(c17_wr_vec_b5_d3, 5, 3, 0, prefilled_vec(0));
+// @harness name=c17_wr_vec_b5_d10 props=C17,C04 tier=thorough timeout=1500
+// @bound variable subset 101 (bits 5) x every max_conns with 10 decimal digits x Vec<u8> pre-filled with 0 bytes; to_compact_string = E5b model
+// @functions ProtocolVariables::write_response<Vec<u8>>, nv::write, RecordHeader::set_lengths, RecordHeader::padding_bytes
+wr_harness!(c17_wr_vec_b5_d10, 5, 10, 0, prefilled_vec(0));
+// @harness name=c17_wr_vec_b5_d19 props=C17,C04 tier=thorough timeout=1500
+// @bound variable subset 101 (bits 5) x every max_conns with 19 decimal digits x Vec<u8> pre-filled with 0 bytes; to_compact_string = E5b model
+// @functions ProtocolVariables::write_response<Vec<u8>>, nv::write, RecordHeader::set_lengths, RecordHeader::padding_bytes
+wr_harness!(c17_wr_vec_b5_d19, 5, 19, 0, prefilled_vec(0));
+// @harness name=c17_wr_vec_b5_d20 props=C17,C04 tier=thorough timeout=1500
+// @bound variable subset 101 (bits 5) x every max_conns with 20 decimal digits x Vec<u8> pre-filled with 0 bytes; to_compact_string = E5b model
+// @functions ProtocolVariables::write_response<Vec<u8>>, nv::write, RecordHeader::set_lengths, RecordHeader::padding_bytes
+wr_harness!(c17_wr_vec_b5_d20, 5, 20, 0, prefilled_vec(0));
+// @harness name=c17_wr_vec_b6_d1 props=C17,C04 tier=thorough timeout=1500
+// @bound variable subset 110 (bits 6) x every max_conns with 1 decimal digits x Vec<u8> pre-filled with 0 bytes; to_compact_string = E5b model
+// @functions ProtocolVariables::write_response<Vec<u8>>, nv::write, RecordHeader::set_lengths, RecordHeader::padding_bytes
+wr_harness!(c17_wr_vec_b6_d1, 6, 1, 0, prefilled_vec(0));
+// @harness name=c17_wr_vec_b6_d2 props=C17,C04 tier=thorough timeout=1500
+// @bound variable subset 110 (bits 6) x every max_conns with 2 decimal digits x Vec<u8> pre-filled with 0 bytes; to_compact_string = E5b model
+// @functions ProtocolVariables::write_response<Vec<u8>>, nv::write, RecordHeader::set_lengths, RecordHeader::padding_bytes
+wr_harness!(c17_wr_vec_b6_d2, 6, 2, 0, prefilled_vec(0));
+// @harness name=c17_wr_vec_b6_d3 props=C17,C04 tier=thorough timeout=1500
+// @bound variable subset 110 (bits 6) x every max_conns with 3 decimal digits x Vec<u8> pre-filled with 0 bytes; to_compact_string = E5b model
+// @functions ProtocolVariables::write_response<Vec<u8>>, nv::write, RecordHeader::set_lengths, RecordHeader::padding_bytes
+wr_harness!(c17_wr_vec_b6_d3, 6, 3, 0, prefilled_vec(0));
+// @harness name=c17_wr_vec_b6_d10 props=C17,C04 tier=thorough timeout=1500
+// @bound variable subset 110 (bits 6) x every max_conns with 10 decimal digits x Vec<u8> pre-filled with 0 bytes; to_compact_string = E5b model
+// @functions ProtocolVariables::write_response<Vec<u8>>, nv::write, RecordHeader::set_lengths, RecordHeader::padding_bytes
+wr_harness!(c17_wr_vec_b6_d10, 6, 10, 0, prefilled_vec(0));
+// @harness name=c17_wr_vec_b6_d19 props=C17,C04 tier=thorough timeout=1500
+// @bound variable subset 110 (bits 6) x every max_conns with 19 decimal digits x Vec<u8> pre-filled with 0 bytes; to_compact_string = E5b model
+// @functions ProtocolVariables::write_response<Vec<u8>>, nv::write, RecordHeader::set_lengths, RecordHeader::padding_bytes
+wr_harness!(c17_wr_vec_b6_d19, 6, 19, 0, prefilled_vec(0));
+// @harness name=c17_wr_vec_b6_d20 props=C17,C04 tier=thorough timeout=1500
+// @bound variable subset 110 (bits 6) x every max_conns with 20 decimal digits x Vec<u8> pre-filled with 0 bytes; to_compact_string = E5b model
+// @functions ProtocolVariables::write_response<Vec<u8>>, nv::write, RecordHeader::set_lengths, RecordHeader::padding_bytes
+wr_harness!(c17_wr_vec_b6_d20, 6, 20, 0, prefilled_vec(0));
+// @harness name=c17_wr_vec_b7_d2 props=C17,C04 tier=thorough timeout=1500
+// @bound variable subset 111 (bits 7) x every max_conns with 2 decimal digits x Vec<u8> pre-filled with 0 bytes; to_compact_string = E5b model
+// @functions ProtocolVariables::write_response<Vec<u8>>, nv::write, RecordHeader::set_lengths, RecordHeader::padding_bytes
+wr_harness!(c17_wr_vec_b7_d2, 7, 2, 0, prefilled_vec(0));
+// @harness name=c17_wr_vec_b7_d3 props=C17,C04 tier=thorough timeout=1500
+// @bound variable subset 111 (bits 7) x every max_conns with 3 decimal digits x Vec<u8> pre-filled with 0 bytes; to_compact_string = E5b model
+// @functions ProtocolVariables::write_response<Vec<u8>>, nv::write, RecordHeader::set_lengths, RecordHeader::padding_bytes
+wr_harness!(c17_wr_vec_b7_d3, 7, 3, 0, prefilled_vec(0));
+// @harness name=c17_wr_vec_b7_d10 props=C17,C04 tier=thorough timeout=1500
+// @bound variable subset 111 (bits 7) x every max_conns with 10 decimal digits x Vec<u8> pre-filled with 0 bytes; to_compact_string = E5b model
+// @functions ProtocolVariables::write_response<Vec<u8>>, nv::write, RecordHeader::set_lengths, RecordHeader::padding_bytes
+wr_harness!(c17_wr_vec_b7_d10, 7, 10, 0, prefilled_vec(0));
+// @harness name=c17_wr_vec_b7_d19 props=C17,C04 tier=thorough timeout=1500
+// @bound variable subset 111 (bits 7) x every max_conns with 19 decimal digits x Vec<u8> pre-filled with 0 bytes; to_compact_string = E5b model
+// @functions ProtocolVariables::write_response<Vec<u8>>, nv::write, RecordHeader::set_lengths, RecordHeader::padding_bytes
+wr_harness!(c17_wr_vec_b7_d19, 7, 19, 0, prefilled_vec(0));
